@@ -143,15 +143,6 @@ def itemHasSpace : CItem → Bool
   | .one (.cls .s) | .one (.cls .S) => true
   | _ => false
 
-def nullable : Re → Bool
-  | .empty | .bol | .eol | .wordb | .nwordb => true
-  | .group r | .ncgroup r => nullable r
-  | .seq a b => nullable a && nullable b
-  | .alt a b => nullable a || nullable b
-  | .quant r q _ => q.min == 0 || nullable r
-  | .look _ _ => true
-  | _ => false
-
 def foldSpecial (c : Nat) : Bool := c = 0x212A ∨ c = 0x17F ∨ c = 0x212B
 
 def itemFoldSpecial : CItem → Bool
